@@ -186,3 +186,26 @@ V("c19-importstate-keeps-time", "C19", "violation", "C19.R3", edits=[("agents/ta
 V("c19-imported-obs-not-saved", "C19", "violation", "C19.R4", edits=[(CE, "            self.saveObservations(self.loadImportedObservations(datetime_epoch))", "            self.loadImportedObservations(datetime_epoch)")])
 V("c19-metadata-from-first-sensor", "C19", "violation", "C19.R4", edits=[(CE, "sensor_agent = ray.get(self._sensor_store[observation.sensor_id])", "sensor_agent = ray.get(self._sensor_store[self.sensor_list[0]])")])
 V("c19-n-subset-test", "C19", "pass", edits=[(IM, "        if missing_ids := registerd_ids - retrieved_ids:", "        missing_ids = registerd_ids.difference(retrieved_ids)\n        if len(missing_ids) > 0:")])
+
+# ------------------------------------------------------------------------------------ C09
+EP = "data/ephemeris.py"
+DI = "data/data_interface.py"
+V("c09-revert-F11-epochs-never-inserted", "C09", "violation", "C09.R6", revert="24e157a")
+V("c09-adhoc-epoch-key", "C09", "violation", "C09.R1", edits=[("agents/target_agent.py", "            julian_date=self.julian_date_epoch,\n            eci=self.eci_state.tolist(),", "            julian_date=datetimeToJulianDate(self.datetime_epoch),\n            eci=self.eci_state.tolist(),")])
+V("c09-agent-epoch-different-expression", "C09", "violation", "C09.R1", edits=[(AB, "        return self._time.convertToJulianDate(self.julian_date_start)", "        return JulianDate(float(self.julian_date_start) + float(self._time) / 86400.0)")])
+V("c09-observations-saved-separately", "C09", "violation", "C09.R2", edits=[(SC, "                output_data.extend(observations)\n", "                self.database.bulkSave(list(observations))\n")])
+V("c09-engine-writes-db", "C09", "violation", "C09.R2", edits=[(EB, "        self._observations.extend(observations)\n        self._saved_observations.extend(observations)\n", "        self._observations.extend(observations)\n        self._database.bulkSave(list(observations))\n")])
+V("c09-commit-in-finally", "C09", "violation", "C09.R3", edits=[(DI, "            yield current_session\n            current_session.commit()\n", "            yield current_session\n"), (DI, "        finally:\n            current_session.close()\n\n    def resetData", "        finally:\n            current_session.commit()\n            current_session.close()\n\n    def resetData")])
+V("c09-exception-swallowed", "C09", "violation", "C09.R3", edits=[(DI, "            current_session.rollback()\n            raise\n", "            current_session.rollback()\n")])
+V("c09-no-rollback", "C09", "violation", "C09.R3", edits=[(DI, "            current_session.rollback()\n            raise\n", "            raise\n")])
+V("c09-estimates-collected-twice", "C09", "violation", "C09.R4", edits=[(SC, "            # Grab `DetectedManeuver`s from the estimate\n", "            output_data.extend(est.getCurrentEphemeris() for est in self.estimate_agents.values())\n            # Grab `DetectedManeuver`s from the estimate\n")])
+V("c09-maneuvers-not-drained", "C09", "violation", "C09.R4", edits=[("agents/estimate_agent.py", "        detections = self._detected_maneuvers\n        self._detected_maneuvers = []\n", "        detections = self._detected_maneuvers\n")])
+V("c09-removal-dependency-dropped", "C09", "violation", "C09.R5", edits=[("scenario/config/event_configs.py", "            DataDependency(\n                AgentModel,\n                Query(AgentModel).filter(AgentModel.unique_id == self.agent_id),\n            ),\n", "            DataDependency(\n                AgentModel,\n                Query(AgentModel).filter(AgentModel.name == str(self.agent_id)),\n            ),\n")])
+V("c09-events-before-agents", "C09", "violation", "C09.R5", edits=[("scenario/scenario_builder.py", "        self._loadAgentsIntoDatabase(shared_database)\n        self._loadEventsIntoDatabase(shared_database)\n", "        self._loadEventsIntoDatabase(shared_database)\n        self._loadAgentsIntoDatabase(shared_database)\n")])
+V("c09-pending-cleared-before-ensure", "C09", "violation", "C09.R6", edits=[(SC, "        for timestamp_iso, julian_date in self._pending_epochs.items():", "        self._pending_epochs = {}\n        for timestamp_iso, julian_date in self._pending_epochs.items():")])
+V("c09-pending-recorded-conditionally", "C09", "violation", "C09.R6", edits=[(SC, "        self._pending_epochs[self.clock.datetime_epoch.isoformat(timespec=\"microseconds\")] = (\n            self.current_julian_date\n        )\n", "        if self.clock.time % self.output_time_step == 0:\n            self._pending_epochs[self.clock.datetime_epoch.isoformat(timespec=\"microseconds\")] = (\n                self.current_julian_date\n            )\n")])
+V("c09-epoch-pair-mixed", "C09", "violation", "C09.R7", edits=[(SC, "                self.database.insertData(Epoch(julian_date=julian_date, timestampISO=timestamp_iso))", "                self.database.insertData(Epoch(julian_date=self.clock.julian_date_epoch, timestampISO=timestamp_iso))")])
+V("c09-covariance-transposed-write", "C09", "violation", "C09.R8", edits=[(EP, '        kwargs["covar_01"] = kwargs["covariance"][0][1]\n', '        kwargs["covar_01"] = kwargs["covariance"][1][0]\n')])
+V("c09-covariance-read-misplaced", "C09", "violation", "C09.R8", edits=[(EP, "                self.covar_21,\n                self.covar_22,", "                self.covar_12,\n                self.covar_22,")])
+V("c09-state-slot-swapped", "C09", "violation", "C09.R8", edits=[(EP, '        kwargs["pos_y_km"] = kwargs["eci"][1]\n        kwargs["pos_z_km"] = kwargs["eci"][2]\n        kwargs["vel_x_km_p_sec"] = kwargs["eci"][3]\n        kwargs["vel_y_km_p_sec"] = kwargs["eci"][4]\n        kwargs["vel_z_km_p_sec"] = kwargs["eci"][5]\n\n        # Remove state vector from kwargs\n        del kwargs["eci"]\n\n        return cls(**kwargs)\n\n\nclass EstimateEphemeris', '        kwargs["pos_y_km"] = kwargs["eci"][2]\n        kwargs["pos_z_km"] = kwargs["eci"][1]\n        kwargs["vel_x_km_p_sec"] = kwargs["eci"][3]\n        kwargs["vel_y_km_p_sec"] = kwargs["eci"][4]\n        kwargs["vel_z_km_p_sec"] = kwargs["eci"][5]\n\n        # Remove state vector from kwargs\n        del kwargs["eci"]\n\n        return cls(**kwargs)\n\n\nclass EstimateEphemeris')])
+V("c09-n-ensure-epoch-every-step", "C09", "pass", edits=[(SC, "        self._pending_epochs[self.clock.datetime_epoch.isoformat(timespec=\"microseconds\")] = (\n            self.current_julian_date\n        )\n\n        # Propagate truth model", "        if not self.database.getData(Query(Epoch).filter(Epoch.timestampISO == self.clock.datetime_epoch.isoformat(timespec=\"microseconds\")), multi=False):\n            self.database.insertData(Epoch(julian_date=self.clock.julian_date_epoch, timestampISO=self.clock.datetime_epoch.isoformat(timespec=\"microseconds\")))\n\n        # Propagate truth model")])
